@@ -20,6 +20,9 @@ const (
 	Second      = time.Second
 	Minute      = time.Minute
 	Hour        = time.Hour
+
+	RFC3339     = time.RFC3339
+	RFC3339Nano = time.RFC3339Nano
 )
 
 var base = time.Date(2030, 1, 1, 0, 0, 0, 0, time.UTC)
